@@ -68,9 +68,11 @@ func Open(name string, kb int, fileMode bool) *DB {
 	return &DB{S: s, Name: name, FileMode: fileMode, KB: kb}
 }
 
-func (d *DB) Cat() *catalog.Catalog             { return d.S.GetCatalogForTesting() }
-func (d *DB) BPM() *buffer.BufferPoolManager    { return d.S.GetSamehadaInstance().GetBufferPoolManager() }
-func (d *DB) TM() *access.TransactionManager    { return d.S.GetSamehadaInstance().GetTransactionManager() }
+func (d *DB) Cat() *catalog.Catalog          { return d.S.GetCatalogForTesting() }
+func (d *DB) BPM() *buffer.BufferPoolManager { return d.S.GetSamehadaInstance().GetBufferPoolManager() }
+func (d *DB) TM() *access.TransactionManager {
+	return d.S.GetSamehadaInstance().GetTransactionManager()
+}
 func (d *DB) Instance() *samehada.SamehadaInstance { return d.S.GetSamehadaInstance() }
 
 // Shutdown is the clean shutdown of the public API.
